@@ -68,7 +68,8 @@ def work(args):
                     for (ic, oc) in combos:
                         reps = 2 if (ci % 7 == 0 and ic == "file") else 1
                         for rep in range(reps):
-                            r = sl.cli_channel_run(b, data, cfg, ic, oc, wd, "c%d" % ci)
+                            pre = (b"STALE OUTPUT OF AN EARLIER RUN " * 40 + b"\n") * 60 if (oc == "file" and (ci + rep) % 2 == 0) else None
+                            r = sl.cli_channel_run(b, data, cfg, ic, oc, wd, "c%d" % ci, prefill=pre)
                             res["evals"] += 1
                             status = "ok" if r["rc"] == 0 else "failed"
                             if r["out"] != exp or r["rc"] != 0:
